@@ -176,6 +176,21 @@ pub fn dump_crate<'tcx>(tcx: TyCtxt<'tcx>, out_dir: &str) {
     std::fs::rename(&tmp, &fname).expect("rename fact file");
 }
 
+/// false, or the chain of macro names this span was expanded from (outermost last).
+fn exp_j(sp: Span) -> J {
+    if !sp.from_expansion() {
+        return J::Bool(false);
+    }
+    let names: Vec<String> = sp
+        .macro_backtrace()
+        .map(|d| match d.kind {
+            rustc_span::ExpnKind::Macro(_, name) => name.as_str().to_string(),
+            other => format!("{:?}", other).split('(').next().unwrap_or("").to_string(),
+        })
+        .collect();
+    J::s(names.join(">"))
+}
+
 fn vis_str(tcx: TyCtxt<'_>, did: DefId) -> String {
     match tcx.def_kind(did) {
         DefKind::Fn | DefKind::AssocFn | DefKind::Struct | DefKind::Enum | DefKind::Union => {
@@ -629,7 +644,7 @@ fn term_j<'tcx>(
                 target.map(|t| J::i(t.as_usize())).unwrap_or(J::Null),
                 unwind_j(unwind),
                 J::i(cl),
-                J::Bool(sp.from_expansion()),
+                exp_j(sp),
             ])
         }
         TerminatorKind::TailCall { .. } => J::Arr(vec![J::s("tailcall")]),
@@ -666,7 +681,7 @@ fn term_j<'tcx>(
                 J::i(target.as_usize()),
                 unwind_j(unwind),
                 cx.line(sp),
-                J::Bool(sp.from_expansion()),
+                exp_j(sp),
             ])
         }
         TerminatorKind::InlineAsm { template, targets, .. } => {
